@@ -9,7 +9,9 @@ C20 — model of `src/streaming/state.rs` (`StateStore`, file and memory backend
 * file backend = finite map  checkpoint id ↦ `none` (directory exists, no `state.json`)
                | `some bytes` (content of `<path>/<id>/state.json`).
 * `serde_json::to_string_pretty` / `from_str` are PARAMETERS (`Codec`) with the contract
-  `Codec.Lawful` (round trip; a strict prefix of a serialised map does not parse) — trusted base,
+  `Codec.Lawful` (round trip for snapshots whose values are all `enc`odable; a snapshot holding a value whose JSON
+  text does not read back — NaN, ±inf, nesting beyond the parser's recursion limit — does not parse at all; a strict
+  prefix of a serialised map does not parse) — trusted base,
   exercised by the harness at every truncation point. `natCodec` is a concrete lawful instance
   used by the driver (and shows the contract is satisfiable).
 * `checkpoint` is the code's own sequence of file-system steps (`ckSteps`): `create_dir_all`,
@@ -140,26 +142,44 @@ def rmSteps : Option Id → List FsStep
 
 /-! ### serialisation as a parameter -/
 
+/-- `ser` / `parse`: `serde_json::to_string_pretty` / `from_str` on `HashMap<String, Value>`. `enc v` says whether the
+stored value `v` survives the trip: `serde_json` WRITES every `Value`, but some of what it writes does not READ back
+as a `HashMap<String, Value>` — a non-finite `Value::Number` (NaN, ±inf, at top level or nested in an Array / Object)
+is written as `null`, which is not an `f64` ("invalid type: null, expected f64"), and a value nested deeper than the
+parser's recursion limit (128 JSON levels = 63 `Value::Array` / `Value::Object` levels) is refused ("recursion limit
+exceeded"). One such entry makes `from_str` fail for the WHOLE map, so `restore` of that checkpoint is an error. -/
 structure Codec where
   ser : List (Nat × Nat) → List Nat
   parse : List Nat → Option (List (Nat × Nat))
+  enc : Nat → Bool
 
-/-- the assumed contract of `serde_json` on `HashMap<String, Value>` -/
+/-- every value of the snapshot survives serialisation (decidable) -/
+def encodable (c : Codec) (m : List (Nat × Nat)) : Bool := m.all fun kv => c.enc kv.2
+
+/-- the assumed contract of `serde_json` on `HashMap<String, Value>`: a snapshot whose values are all encodable reads
+back as itself; a snapshot holding a non-encodable value does not read back AT ALL (no partial map); a strict prefix of
+a serialised map does not parse -/
 structure Codec.Lawful (c : Codec) : Prop where
-  roundtrip : ∀ m, c.parse (c.ser m) = some m
+  roundtrip : ∀ m, encodable c m = true → c.parse (c.ser m) = some m
+  lossy_fails : ∀ m, encodable c m = false → c.parse (c.ser m) = none
   prefix_fails : ∀ m n, n < (c.ser m).length → c.parse ((c.ser m).take n) = none
+
+/-- value indices 20 … 29 of the harness' table are the values whose JSON text does not read back (NaN, +inf, -inf,
+an array / an object holding one, a value nested beyond the recursion limit …) -/
+def lossyVal (v : Nat) : Bool := decide (20 ≤ v) && decide (v < 30)
 
 def encode : List (Nat × Nat) → List Nat
   | [] => [0]
   | (k, v) :: r => 1 :: k :: v :: encode r
 
+/-- reading fails on a value that does not read back (as `from_str` does: the whole map is refused) -/
 def decode : List Nat → Option (List (Nat × Nat))
   | [0] => some []
-  | 1 :: k :: v :: r => (decode r).map (fun m => (k, v) :: m)
+  | 1 :: k :: v :: r => if lossyVal v then none else (decode r).map (fun m => (k, v) :: m)
   | _ => none
 
 /-- a concrete codec satisfying the contract (used by the driver) -/
-def natCodec : Codec := ⟨encode, decode⟩
+def natCodec : Codec := ⟨encode, decode, fun v => !lossyVal v⟩
 
 /-! ### the state store -/
 
